@@ -229,6 +229,9 @@ func (u *upstream) getClient(addr string) (*client, error) {
 	}
 	c, err := u.createClient(addr)
 	call.res, call.err = c, err
+	// The call only deduplicates concurrent attempts, its result must not
+	// outlive it: the client may exit, or the addr may become reachable later.
+	u.createClientCalls.Delete(addr)
 	close(call.done)
 	return c, err
 }
